@@ -302,7 +302,8 @@ def build_replay(pid, contract, ob_name, meta, model, verdict_raw):
         if kind == "ensures":
             lines += [
                 "if raised is not None:",
-                "    print('NOT-CONFIRMED: real code raised instead of returning'); sys.exit(0)",
+                "    print('real code raised an exception under a satisfied precondition instead of returning:', repr(raised))",
+                "    print('CONFIRMED'); sys.exit(1)",
                 f"ok = bool(eval({clause!r}, env))",
                 "print('clause holds natively:', ok)",
                 "print('CONFIRMED' if not ok else 'NOT-CONFIRMED'); sys.exit(1 if not ok else 0)",
